@@ -379,6 +379,9 @@ func check(prop, tier string) int {
 	if !ok {
 		die2("no check registered for property %s", prop)
 	}
+	if v := os.Getenv("VERIF_PROFILE"); v != "" {
+		cfg.Profile = v // development aid: run the oracles of one property on the scenarios of another
+	}
 	rc := &runCtx{cfg: cfg, tier: tier, seed: seedFromEnv(), t0: time.Now(), known: loadKnown()}
 	rc.work = filepath.Join(verifDir, "work", fmt.Sprintf("%s-%s-%d", prop, tier, os.Getpid()))
 	if err := os.MkdirAll(rc.work, 0o755); err != nil {
